@@ -29,7 +29,9 @@ class CombineStartswithEndswith(CombineCallsBaseCodemod):
                     | m.SimpleString()
                     | m.ConcatenatedString()
                     | m.FormattedString()
-                    | m.Name()
+                    | m.Name(),
+                    # `s.startswith(*pair)` passes prefix, start, end
+                    star="",
                 )
             ],
         )
